@@ -353,6 +353,18 @@ def main(argv=None):
         print(f"SOLVER-DISAGREEMENT property={prop}: cvc5 found a model for {cross['disagree']} VC(s) that z3 proved")
     samples = [{"id": o["id"], "kind": o["kind"], "vcs": o["vcs"], "status": o["status"], "seconds": o["seconds"]}
                for o in obligations[:6]]
+    # opt-in (pack attribute CALL_SITE_VIEWS = {target: why the verified contract implies the assumed registration}): a target that
+    # is registered twice -- VERIFIED on its real body and, abbreviated, as the view its callers use -- is reported as assumed only
+    # while some obligation of the verified registration is not discharged (additive: packs without the attribute are unaffected)
+    views = {}
+    try:
+        for tgt, why in dict(getattr(pack, "CALL_SITE_VIEWS", {}) or {}).items():
+            qn = tgt.split("/")[-1]
+            mine = [o for o in obligations if o["id"].startswith(f"{prop}/{qn}/")]
+            if mine and all(o["status"] == "discharged" for o in mine) and any(c.target == tgt for c in todo):
+                views[tgt] = why
+    except Exception:  # noqa
+        views = {}
     evidence = {
         "property_id": prop, "tier": tier, "seed": seed, "level": "proof",
         "coverage": {
@@ -367,7 +379,8 @@ def main(argv=None):
                 "CPython ast module"],
             "samples": samples,
             "functions_under_contract": fn_infos,
-            "assumed_contracts": sorted({c.target for c in assumed} | assumed_used | set(getattr(pack, "ASSUMED_MODELS", []))),
+            "assumed_contracts": sorted(({c.target for c in assumed} | assumed_used | set(getattr(pack, "ASSUMED_MODELS", []))) - set(views)),
+            "call_site_views_of_verified_contracts": views,
             "bounded_functions_run_in_thorough_tier_only": skipped_bounded,
             "by_backend_vcs": by_backend,
             "second_solver_cross_check": cross,
